@@ -63,6 +63,8 @@ GuardValue(c, S, gv, i) ==
     [] t.gk = "oracle" -> gv[i]
     [] t.gk = "after"  -> S.time - t.ga >= S.entryT[t.src]
     [] t.gk = "idle"   -> S.time - t.ga >= S.idleT[t.src]
+    [] t.gk = "afterp" -> S.time - t.ga >= S.entryT[t.src]    \* the bare text  after(ga) : not traced, and the
+    [] t.gk = "idlep"  -> S.time - t.ga >= S.idleT[t.src]     \* same text on several transitions
     [] t.gk = "active" -> t.ga \in S.conf
     [] t.gk = "xlt"    -> S.x < t.ga            \* guard  x < ga  (plain code, no oracle)
 
@@ -77,7 +79,7 @@ SelClasses(c, S, gv, ts, shown, acc) ==
         glog == [j \in DOMAIN cls |->
                    LogE("guard", cls[j], shown.ev, shown.par, 0,
                         IF GuardValue(c, S, gv, cls[j]) THEN 1 ELSE 0, S.time)]
-        gl2  == SelectSeq(glog, LAMBDA e : c.trans[e.a].gk # "none")
+        gl2  == SelectSeq(glog, LAMBDA e : c.trans[e.a].gk \notin {"none", "afterp", "idlep"})
         fnd  == SelectSeq(cls, LAMBDA i : GuardValue(c, S, gv, i))
         acc2 == [acc EXCEPT !.glog = @ \o gl2, !.sel = @ \o fnd]
     IN IF Len(fnd) > 0 THEN [acc2 EXCEPT !.found = TRUE]
@@ -209,9 +211,10 @@ DoConds(opt, orc, A, ck, owner, cnt, idx, old, ts) ==
 
 (* a code fragment runs: probe, counter, clock tick; its sends are kept for the end of the micro step *)
 SentOf(d) ==
-  [j \in 1..Len(d.sends) |-> [k |-> "i", ev |-> d.sends[j].ev, dl |-> d.sends[j].dl,
-                              par |-> d.sends[j].par]]
-  \o [j \in 1..Len(d.nots) |-> [k |-> "m", ev |-> d.nots[j], dl |-> 0, par |-> 0]]
+  LET snd == [j \in 1..Len(d.sends) |-> [k |-> "i", ev |-> d.sends[j].ev, dl |-> d.sends[j].dl,
+                                         par |-> d.sends[j].par]]
+      nts == [j \in 1..Len(d.nots) |-> [k |-> "m", ev |-> d.nots[j], dl |-> 0, par |-> 0]]
+  IN IF d.nf = 1 THEN nts \o snd ELSE snd \o nts      \* nf: the fragment notifies before it sends
 
 DoCode(A, k, a, b, cc, d) ==
   IF ~Ok(A) THEN A
